@@ -115,6 +115,7 @@ std::map<IndexCombination4,std::vector<ComplexType> > TwoParticleGFContainer::co
         //    if (comm.rank() == sender) INFO("P" << comm.rank() << " 2pgf " << p << " " << chi.parts[p]->NonResonantTerms.size());
             boost::mpi::broadcast(comm, chi.parts[p]->NonResonantTerms, sender);
             boost::mpi::broadcast(comm, chi.parts[p]->ResonantTerms, sender);
+            if (!clearTerms) chi.parts[p]->Status = TwoParticleGFPart::Computed;
             std::vector<ComplexType> freq_data;
             if (comm.rank() == sender) freq_data = storage[iter->first];
             boost::mpi::broadcast(comm, freq_data, sender);
